@@ -186,3 +186,14 @@ def run_search(repo: Repo, res: Result) -> None:
                     kind="dominance",
                 )
     res.floor("C01.S", 15, n)
+
+
+def run_lookup(repo: Repo, res: Result, rule_id: str = "C13.R6") -> int:
+    """C13.R6 (search part): every subject and every object named in a query reaches a raising graph lookup on every path.
+    Returns the number of obligations added (for the caller's floor)."""
+    n = 0
+    for f in S.lookup_facts(repo):
+        fi = f.model.fi
+        n += 1
+        res.add(rule_id, f"{fi.relpath}::{getattr(fi, 'shown', fi.qualname)}::lookup of {f.param}", f.ok, f.detail, where(fi, fi.node), kind="dominance")
+    return n
